@@ -227,11 +227,15 @@ def _show(v):
     return repr(v)
 
 
+DF = [pd.Timestamp('2021-03-31'), pd.Timestamp('2021-06-30')]            # observation dates AFTER every stamp and read time (forecasts, forward-dated rows)
+_CUR = {'dates': D, 'reversed': False}
+
+
 def mk_series(vd):
     idx, vals = [], []
-    for d in (0, 1):
+    for d in ((1, 0) if _CUR['reversed'] else (0, 1)):                     # reversed: the version lists its dates newest first
         if vd[d] is not None:
-            idx.append(D[d])
+            idx.append(_CUR['dates'][d])
             vals.append(_val(vd[d]))
     return pd.Series(vals, index=pd.DatetimeIndex(idx), dtype=float)
 
@@ -278,7 +282,7 @@ def rows_of(res):
     out = {}
     for k, v in zip(list(res.index), list(res.values)):
         try:
-            k2 = D.index(pd.Timestamp(k))
+            k2 = _CUR['dates'].index(pd.Timestamp(k))
         except Exception:
             k2 = repr(k)
         if k2 in out:
@@ -330,6 +334,8 @@ class History(BfsSuite):
         BfsSuite.__init__(self, name, depth, rule, bounds)
         self.versions = versions
         self.container = container          # 'series' | 'frame' (a version handed over as a one-column DataFrame)
+        self.dates = 'past'                 # 'past': observation dates before every stamp | 'future': after every stamp and read time
+        self.reversed = False               # True: versions list their observation dates newest first
 
     def initial(self):
         return [[]]
@@ -344,6 +350,8 @@ class History(BfsSuite):
     def visit(self, history):
         from pyg_base._bitemporal import Bi, bi_merge, bi_read
         out = Out()
+        _CUR['dates'] = DF if self.dates == 'future' else D
+        _CUR['reversed'] = bool(self.reversed)
         pubs = flatten(history)
         n = len(pubs)
         if n == 0:
@@ -352,7 +360,9 @@ class History(BfsSuite):
         stamps = [si for _, si in pubs]
         if any(a > b for a, b in zip(stamps, stamps[1:])):
             raise ValueError('history with decreasing stamps: %r' % (history,))
-        H = show_history(history) + (' [versions as one-column frames]' if self.container == 'frame' else '')
+        H = show_history(history) + (' [versions as one-column frames]' if self.container == 'frame' else '') + (
+            ' [observation dates d1, d2 = %s, %s: after every stamp]' % (DF[0].date(), DF[1].date()) if self.dates == 'future' else '') + (
+            ' [versions list d2 before d1]' if self.reversed else '')
         model = Model(pubs)
         has_list = any(op[0] != 'merge' for op in history)
         mk = mk_series if self.container == 'series' else (lambda vd: mk_series(vd).to_frame('x'))
@@ -583,6 +593,8 @@ _VISITOR = History('visitor', 0, '', {}, VERSIONS)
 def check_history(case):
     """E2 form: one complete history (used for the list form, whose fan-out sits on a single predecessor)"""
     _VISITOR.container = case.get('container', 'series')
+    _VISITOR.dates = case.get('dates', 'past')
+    _VISITOR.reversed = case.get('reversed', False)
     out, key, exp = _VISITOR.visit(case['history'])
     return out
 
@@ -608,6 +620,21 @@ def gen_plainform(tier):
                             for v2 in third:
                                 yield {'history': [['plain2', [v0, si], [v1, sj]], ['plain', v2, sk]]}
                                 yield {'history': [['merge', v0, si], ['plain', v1, sj], ['merge', v2, sk]]}
+
+
+def gen_axes(tier):
+    """the same two-merge histories with (1) observation dates lying AFTER every stamp and read time, (2) versions that list their dates newest first"""
+    for si in range(len(S)):
+        for sj in range(si, len(S)):
+            if tier == 'quick' and (si, sj) not in QUICK_STAMP_PAIRS:
+                continue
+            for v0 in VERSIONS:
+                for v1 in VERSIONS:
+                    yield {'history': [['merge', v0, si], ['merge', v1, sj]], 'dates': 'future'}
+                    if (v0[0] is not None and v0[1] is not None) or (v1[0] is not None and v1[1] is not None):
+                        yield {'history': [['merge', v0, si], ['merge', v1, sj]], 'reversed': True}
+                        if tier != 'quick':
+                            yield {'history': [['mergelist', [v0, si], [v1, sj]]], 'reversed': True}
 
 
 def gen_frameform(tier):
@@ -749,6 +776,11 @@ def suites(tier, seed):
                    'bi_merge(bi_merge(None, plain v0, asof=s_i), plain v1, asof=s_j) for every pair of versions and %s; same checks as the history suite'
                    % ('(i, j) in %s' % QUICK_STAMP_PAIRS if tier == 'quick' else 'every i <= j, each followed by every third publication (as plain series or as Bi frame)'),
               bounds=dict(common, max_publications=3)),
+        Suite('axes', lambda: gen_axes(tier), check_history,
+              rule='two-merge histories over all pairs of versions (%s) with (1) the observation dates lying AFTER every stamp and every read time (forward-dated rows: what '
+                   'is published by T is read at T whatever date it is about), (2) versions that list their observation dates newest first; same checks as the history suite'
+                   % ('stamp pairs %s' % QUICK_STAMP_PAIRS if tier == 'quick' else 'all stamp pairs; reversed versions also through the list form'),
+              bounds=dict(common, max_publications=2)),
         Suite('frameform', lambda: gen_frameform(tier), check_history,
               rule='the versions as one-column DataFrames instead of Series (%s): two merges, the list form and the plain form; same checks as the history suite, '
                    'in particular the publisher\'s frames are compared with snapshots taken BEFORE Bi() / bi_merge saw them' % ('versions holding d1, stamp pairs %s' % QUICK_STAMP_PAIRS if tier == 'quick' else 'all 15 versions, all stamp pairs'),
